@@ -36,7 +36,7 @@ thread_local! {
     static RT: RefCell<Option<tokio::runtime::Runtime>> = const { RefCell::new(None) };
 }
 
-fn with_rt<T>(f: impl FnOnce(&tokio::runtime::Runtime) -> T) -> T {
+pub(crate) fn with_rt<T>(f: impl FnOnce(&tokio::runtime::Runtime) -> T) -> T {
     RT.with(|c| {
         let mut g = c.borrow_mut();
         if g.is_none() {
